@@ -56,7 +56,7 @@ CHECKS = {
         text='(a) real filter_stats/get_list_of_types on dictionaries with symbolic integer key fields: every path proved equal to the specification, coverage certified; sort_stats by CrossHair contracts; '
              '(b) every explored convergence pattern / restart history of the real controller with all logging hooks: one correctly keyed record per accepted step and type, niter = iteration callbacks, '
              'work_rhs = evaluations made, no silent key collisions; (c) every ordered pair of shipped hook classes is registered exactly once through both routes (hook_class list, add_hook) (enumerated, concrete).',
-        note='Trusted: z3, CrossHair (only "Confirmed over all paths" counts). Restart generation and entry type are enumerated. Outside: per-iteration error hooks, values of timing hooks, file-writing hooks, MPI gathering, > 4 entries.',
+        note='Trusted: z3, CrossHair (only "Confirmed over all paths" counts). Restart generation and entry type are enumerated. Outside: LogSolutionAfterIteration, values of timing hooks, file-writing hooks, MPI gathering, > 4 entries.',
         design='4/C14', technique='symbolic execution of real helpers (z3) + CrossHair contracts; path exploration of the real controller with recording hooks',
     ),
     'C16': dict(
